@@ -6,3 +6,10 @@ package loadbalance
 // VerifGCD exposes gcd to the verification harness in /verif (read-only accessor, build tag
 // "verif"; nothing else in this package refers to it).
 func VerifGCD(x, y int64) int64 { return gcd(x, y) }
+
+// VerifRRGetIndex exposes RoundRobinLoadBalance.getIndex: the value returned and the cursor afterwards.
+func VerifRRGetIndex(index int64, n int64) (int64, int64) {
+	lb := &RoundRobinLoadBalance{index: index}
+	r := lb.getIndex(n)
+	return r, lb.index
+}
